@@ -396,7 +396,7 @@ func (r *Runner) checkHint() {
 	_ = os.RemoveAll(tmp)
 	_ = os.MkdirAll(tmp, 0o755)
 	defer os.RemoveAll(tmp)
-	if err := os.WriteFile(filepath.Join(tmp, "000000000.hint"), hf.Data, 0o644); err != nil {
+	if err := os.WriteFile(filepath.Join(tmp, "000000000.hint"), logicalContent(hf), 0o644); err != nil {
 		r.Infra = err.Error()
 		return
 	}
@@ -462,7 +462,7 @@ func (r *Runner) checkHint() {
 			return
 		}
 		want[e]--
-		if live, ok := r.M[h.key]; !ok || !beq(live, vals[e]) {
+		if live, ok := r.M[h.key]; r.extra["hintConc"] == nil && (!ok || !beq(live, vals[e])) {
 			r.fail("hint-entry-not-live", "", "hint entry for key %q points at %s, the live value is %s", h.key, show(vals[e]), show(live))
 			return
 		}
@@ -473,7 +473,9 @@ func (r *Runner) checkHint() {
 			return
 		}
 	}
-	if len(hints) != len(r.M) {
+	// (writers that ran next to the merge may have superseded or deleted what it rewrote: the hint then still has to
+	// index the merged files faithfully, but not the live mapping)
+	if len(hints) != len(r.M) && r.extra["hintConc"] == nil {
 		r.fail("hint-key-count", "", "the hint file names %d keys, the database holds %d", len(hints), len(r.M))
 		return
 	}
